@@ -108,6 +108,21 @@ def doc_case(text, indent, incl=True):
     return {"kind": "doc", "text": text, "indent": indent, "incl": incl}
 
 
+BODYLESS = [
+    "type Droid", "type Droid implements I", "type Droid @d", "interface I", "interface I @d", "input In", "input In @d",
+    "enum E", "enum E @d", "union U", "union U = A | B", "union U @d", "scalar S", "scalar S @d",
+    "directive @d on FIELD", "directive @d(a: Int) on FIELD | QUERY",
+    "extend schema @d", "extend type Droid @d", "extend type Droid implements I", "extend interface I @d",
+    "extend input In @d", "extend enum E @d", "extend union U @d", "extend union U = A", "extend scalar S @d",
+]
+# (spelling in leading position, spelling after another definition) of one anonymous query
+DUP_QUERIES = [
+    ("{ hero { name } }", "query { hero { name } }"),
+    ("query { a }", "query { a }"),
+    ("{ a(x: 1) @d ... on T { b } }", "query { a(x: 1) @d ... on T { b } }"),
+]
+
+
 def corpus():
     out = []
     witnesses = [
@@ -139,6 +154,17 @@ def corpus():
     for s in G.PLAIN_STRINGS:
         out.append({"kind": "quoted", "value": s, "indent": 2})
         out.append({"kind": "rawblock", "value": s, "indent": 2})
+    # duplicate-definition family (seeded C03-e): the same anonymous query / the same definition at
+    # several positions, after body-less type-system definitions and extensions of every kind
+    for b in BODYLESS:
+        for q in DUP_QUERIES:
+            s0, s1 = q
+            for shape in ("%(s0)s %(b)s %(s1)s", "%(s0)s %(b)s %(s1)s %(b)s %(s1)s", "%(b)s %(s1)s %(b)s %(s1)s",
+                          "%(s0)s %(s1)s %(b)s %(s1)s", "%(b)s %(b)s %(s1)s"):
+                out.append(doc_case(shape % {"s0": s0, "s1": s1, "b": b}, 2))
+    for d in ("fragment F on T { a }", "query Q { a }", "mutation { m }", "subscription S { s }", "type A { a: Int }"):
+        for b in BODYLESS[:4]:
+            out.append(doc_case("%s %s %s { z } %s" % (d, b, d, b), 0))
     # compositional pool (seeded C03-d): every pair of character classes in one string, as a quoted
     # value / default / directive argument, as a quoted description, and (where legal) in a block string
     for a, b, s in G.pairwise_strings():
@@ -208,6 +234,22 @@ def run_impl(case):
         except Exception as e:  # noqa
             return {"raised": type(e).__name__}
         obs = {"text": text, "again": pr(doc) == text}
+        # the same source parsed with no_location=True (structurally equal nodes then compare equal):
+        # same text as the located tree (= the model's, C03_print_ignores_locations), and it re-parses
+        try:
+            doc0 = parse(case["text"], no_location=True, **G.PARSE_KW)
+            text0 = pr(doc0)
+            if text0 == text:
+                obs["noloc"] = "same"
+            else:
+                obs["noloc"] = "different"
+                obs["noloc_text"] = text0
+                try:
+                    parse(text0, **G.PARSE_KW)
+                except GraphQLSyntaxError:
+                    obs["noloc"] = "different-and-rejected"
+        except Exception as e:  # noqa
+            obs["noloc"] = "raised:" + type(e).__name__
         if not case["incl"]:
             return obs
         try:
@@ -290,6 +332,9 @@ def direct_checks(case, obs):
         return [("printing-never-raises: %s" % obs["raised"], None)]
     if not obs.get("again", True):
         out.append(("printing-is-deterministic", None))
+    nl = obs.get("noloc", "same")
+    if nl != "same":
+        out.append(("location-free-parse-prints-the-same-text: %s" % nl, None))
     rp = obs.get("reparse")
     if rp == "rejected":
         out.append(("printed-text-is-accepted-by-the-parser", None))
